@@ -170,17 +170,23 @@ def stub_hash(seed, args):
     return h
 
 
-def make_stub(seed, rty, mon):
+def make_stub(seed, rty, mon, atys=None):
     """the Python side of `stubBytes` / `stubInt` in Gen/FnDispatch.lean"""
     def flat(a):
         out = []
-        for v in a:
+        for i, v in enumerate(a):
+            opt = atys is not None and len(atys) == len(a) and isinstance(atys[i], tuple) and atys[i][0] == "opt"
+            if opt:                        # translate_fn.STUB_ARGS: None -> 65000, some v -> 65001 then v
+                out.append(65000 if v is None else 65001)
+                if v is None:
+                    continue
             if isinstance(v, bool):
                 out.append(1 if v else 0)
             elif isinstance(v, int):
                 out.append(v)
-            else:
+            elif isinstance(v, (bytes, bytearray, list, tuple)):
                 out += list(bytes(v))
+            # anything else is the object itself (`self` handed to the callee, declared NONE): contributes nothing
         return out
 
     def f(*a, **kw):
@@ -188,11 +194,24 @@ def make_stub(seed, rty, mon):
         h = stub_hash(seed, args)
         if mon and h % 11 == 0:
             raise IndexError("stub")
-        if mon and rty == T.BYTES and h % 11 == 1:
+        if mon and rty in (T.BYTES, T.OPT(T.BYTES), T.TUP(T.BYTES, T.BYTES)) and h % 11 == 1:
             import nfc.tag
             raise nfc.tag.TagCommandError(1)
+
+        def bs(hh):
+            return bytearray((hh // (i + 1)) % 256 for i in range(hh % 5))
         if rty == T.BYTES:
-            return bytearray((h // (i + 1)) % 256 for i in range(h % 5))
+            return bs(h)
+        if rty == T.OPT(T.BYTES):
+            return None if h % 3 == 0 else bs(h)
+        if rty == T.OPT(T.INT):
+            return None if h % 3 == 0 else h % 300 - 20
+        if rty == T.TUP(T.BYTES, T.BYTES):
+            return (bs(h), bs(stub_hash(seed + 100, args)))
+        if rty == T.BOOL:
+            return h % 2 == 0
+        if rty == T.OPT(T.BOOL):
+            return None if h % 3 == 0 else h % 3 == 1
         return h % 300 - 20
     return f
 
@@ -233,18 +252,51 @@ class SliceSelf(types.SimpleNamespace):
         return Dummy()
 
 
+def odd_bind(sp, src):
+    """binds that the slice executor replaces by a parameter: call / subscript / comparison texts
+    (translate_fn.is_odd_bind) and attribute texts whose root is a local the function itself assigns
+    (`ndef = self.NDEF(self)` .. `ndef.has_changed`: the object is not one the harness can prepare)"""
+    if T.is_odd_bind(src):
+        return True
+    root = src.split(".")[0]
+    if "." not in src or root in ("self", "cls"):
+        return False
+    if not hasattr(sp, "_assigned_locals"):
+        try:
+            src_path = getattr(sp, "_src_path", None) or os.path.join(common.REPO, "src", "nfc", sp.file)
+            node = T.find_def_node(ast.parse(open(src_path).read()), sp.qual)
+            sp._assigned_locals = {x.id for x in ast.walk(node) if isinstance(x, ast.Name) and isinstance(x.ctx, ast.Store)}
+        except Exception:      # noqa: BLE001
+            sp._assigned_locals = set()
+    return root in sp._assigned_locals
+
+
+class SuperStub(object):
+    """stand-in for the builtin `super` inside a slice: every `super(..)` is one object carrying the stubs"""
+    def __init__(self):
+        self.obj = SliceSelf()
+
+    def __call__(self, *a):
+        return self.obj
+
+
 def install_stubs(sp, obj, roots):
     for k, (text, (pname, atys, rty, mon)) in enumerate(sorted(sp.opaque.items())):
         parts = text.split(".")
-        o = obj if parts[0] in ("self", "cls") else roots.setdefault(parts[0], SliceSelf())
+        if parts[0].startswith("super("):        # `super(Cls, self).m(..)` as an opaque call: `super` of the slice
+            sup = roots.setdefault("super", SuperStub())
+            parts = ["super"] + parts[1:]
+            o = sup.obj
+        else:
+            o = obj if parts[0] in ("self", "cls") else roots.setdefault(parts[0], SliceSelf())
         for p in parts[1:-1]:
             if p not in getattr(o, "__dict__", {}):
                 o.__dict__[p] = SliceSelf()
             o = o.__dict__[p]
         if len(parts) > 1:
-            o.__dict__[parts[-1]] = make_stub(k + 1, rty, mon)
+            o.__dict__[parts[-1]] = make_stub(k + 1, rty, mon, atys)
         else:
-            roots[parts[0]] = make_stub(k + 1, rty, mon)
+            roots[parts[0]] = make_stub(k + 1, rty, mon, atys)
 
 
 def make_self(sp, cls, bind_vals, roots=None):
@@ -253,13 +305,16 @@ def make_self(sp, cls, bind_vals, roots=None):
     self (`target.sensb_res`) are put into `roots`."""
     if cls is not None and not sp.cut:
         sub = type(cls.__name__, (cls,), {"__getattr__": lambda self, name: Dummy()})    # locks, logs, .. not modelled
-        obj = object.__new__(sub)
+        try:
+            obj = object.__new__(sub)
+        except TypeError:          # exception classes and other built-in bases: their own allocator, still no __init__
+            obj = sub.__new__(sub)
     else:
         obj = SliceSelf()
         obj.__dict__["_cls"] = cls
         obj.__dict__["_calls"] = {k.split(".", 1)[1] for k in sp.calls if k.startswith(("self.", "cls.")) and k.count(".") == 1}
     for (src, pname, ty), v in zip(sp.binds, bind_vals):
-        if T.is_odd_bind(src):
+        if odd_bind(sp, src):
             continue       # a call/subscript/comparison text: replaced by a parameter in the compiled slice
         parts = src.split(".")
         if parts[0] not in ("self", "cls"):
@@ -329,6 +384,9 @@ def rec_value(name, vals):
 
 
 def _real_callable(sp, mod, path):
+    sp._src_path = path            # for odd_bind: the file this run takes the function from
+    if hasattr(sp, "_assigned_locals"):
+        del sp._assigned_locals
     parts = sp.qual.split(".")
     owner = mod
     for p in parts[:-1]:
@@ -339,22 +397,38 @@ def _real_callable(sp, mod, path):
     setter = parts[-1].endswith("@setter")
     if setter:
         parts[-1] = parts[-1][:-7]
-    if not sp.cut:
+    sp._src_path = path
+    if not sp.cut and not any(odd_bind(sp, b[0]) for b in sp.binds):
         raw = getattr(mod, parts[-1]) if cls is None else \
             [c.__dict__[parts[-1]] for c in cls.__mro__ if parts[-1] in c.__dict__][0]
         if setter:
-            return lambda pv, bv: raw.fset(make_self(sp, cls, bv), *[py_value(t, v) for (_, t), v in zip(sp.params, pv)])
+            def run_setter(pv, bv):
+                me = make_self(sp, cls, bv)
+                install_stubs(sp, me, {})
+                return raw.fset(me, *[py_value(t, v) for (_, t), v in zip(sp.params, pv)])
+            return run_setter
         if isinstance(raw, staticmethod) or cls is None:
             fn = raw.__func__ if isinstance(raw, staticmethod) else raw
             return lambda pv, bv: fn(*[py_value(t, v) for (_, t), v in zip(sp.params, pv)])
         if isinstance(raw, property):
-            return lambda pv, bv: raw.fget(make_self(sp, cls, bv))
+            def run_getter(pv, bv):
+                me = make_self(sp, cls, bv)
+                install_stubs(sp, me, {})
+                return raw.fget(me)
+            return run_getter
         if isinstance(raw, classmethod):
             return lambda pv, bv: raw.__func__(cls, *[py_value(t, v) for (_, t), v in zip(sp.params, pv)])
         def run_method(pv, bv):
             me = make_self(sp, cls, bv)
-            install_stubs(sp, me, {})
-            return raw(me, *[py_value(t, v) for (_, t), v in zip(sp.params, pv)])
+            roots = {}
+            install_stubs(sp, me, roots)
+            fn = raw
+            if "super" in roots and isinstance(raw, types.FunctionType):
+                # `super(Cls, self).m(..)` declared opaque: the same code object with `super` bound to the stand-in
+                fn = types.FunctionType(raw.__code__, dict(raw.__globals__, super=roots["super"]), raw.__name__,
+                                        raw.__defaults__, raw.__closure__)
+                fn.__kwdefaults__ = raw.__kwdefaults__
+            return fn(me, *[py_value(t, v) for (_, t), v in zip(sp.params, pv)])
         return run_method
     # a slice of the method: compile exactly those statements in the namespace of the real module
     tree = ast.parse(open(path).read())
@@ -364,7 +438,7 @@ def _real_callable(sp, mod, path):
         elts = [ast.parse(n, mode="eval").body for n in sp.result]
         ret = ast.Return(value=ast.Tuple(elts=elts, ctx=ast.Load()) if len(elts) > 1 else elts[0])
         body = body + [ret]
-    odd = [(src, pname, ty) for (src, pname, ty) in sp.binds if T.is_odd_bind(src)]
+    odd = [(src, pname, ty) for (src, pname, ty) in sp.binds if odd_bind(sp, src)]
 
     class Repl(ast.NodeTransformer):
         def generic_visit(self, node):
@@ -452,7 +526,7 @@ def _real_callable(sp, mod, path):
             roots[name] = exc
         for r, o in roots.items():
             ns[r] = o
-        extra = [py_value(ty, v) for (src, pname, ty), v in zip(sp.binds, bv) if T.is_odd_bind(src)]
+        extra = [py_value(ty, v) for (src, pname, ty), v in zip(sp.binds, bv) if odd_bind(sp, src)]
         return f(me, *([py_value(t, v) for (_, t), v in zip(sp.params, pv)] + extra))
     return run
 
@@ -567,6 +641,9 @@ def inputs_for(sp, rng, n):
         for (name, _t), v in list(zip(sp.params, pv)) + [((pn, t), v) for (_s, pn, t), v in zip(sp.binds, bv)]:
             if name in sp.nonneg and isinstance(v, int) and v < 0:
                 return          # declared precondition of the cut
+        none_srcs = [src for (src, _pn, _t), v in zip(sp.binds, bv) if v is None]
+        if any(src2.startswith(src + ".") for src in none_srcs for (src2, _pn, _t) in sp.binds):
+            return              # `self.x` bound to None together with a bound `self.x.y`: no such object state
         if accept is not None and not accept(sp, pv, bv):
             return              # precondition declared by the spec file (must be said in the spec's note)
         key = repr((pv, bv))
@@ -606,7 +683,7 @@ def part1(seed, n, verbose=True):
         if sp.refused:
             rows.append((sp.lean, "refused", 0, 0, sp.refused))
             continue
-        if sp.opaque and not all(set(a) <= {T.INT, T.BYTES, T.BOOL} and r in (T.INT, T.BYTES) for (_, a, r, _) in sp.opaque.values()):
+        if sp.opaque and not all(set(a) <= set(T.STUB_ARGS) and r in T.STUB_RESULTS for (_, a, r, _) in sp.opaque.values()):
             rows.append((sp.lean, "not-run", 0, 0, "function-valued parameters of unsupported types"))
             continue
         mod = load_module(sp)
